@@ -47,6 +47,7 @@ func init() {
 		Borrows: []Borrow{
 			{From: "C15", Rules: []string{"D1", "D2", "D3", "D4", "D5", "D6"}, Why: "the consumer loop is fed by the FIFO queue and the per-device priority queues (both anchors of this property): an item lost, duplicated or left behind a lost wake-up is a message not delivered, or delivered twice; D4/D5 rely on NextAll handing over every parked item (the queue is empty on a nil return) and Next yielding the lowest counter"},
 			{From: "C05", Rules: []string{"D4"}, Why: "a chain-key announcement releases the parked messages only if the group context sees it: activation must subscribe to metadata events before it lists the past ones, else an announcement arriving in between is seen by neither path and that sender's messages stay parked (group_context.go is an anchor of this property)"},
+			{From: "C09", Rules: []string{"D8"}, Why: "the message store hands its own device key to the opener so that reading back its own messages does not advance its sending chain; with another key the sender burns two chain steps per message while receivers slide their window by one, and from the end of the window on every message of that sender stays parked"},
 			{From: "C14", Rules: []string{"D1"}, Why: "opening a message's push payload first must not consume its precomputed key: the log entry arriving afterwards would fail to open on every retry and stay parked for good"},
 		},
 		Run:         runC08,
